@@ -62,8 +62,11 @@ def sh(cmd, cwd=None, timeout=600, env=None, inp=None):
     return p.returncode, p.stdout
 
 
+ALT = REPO != '/repo'      # a run against a scratch copy: keep it apart from the registered run's files
+
+
 def run_dir(prop):
-    d = os.path.join(RUN, prop)
+    d = os.path.join(RUN, prop + ('_alt_%d' % os.getpid() if ALT else ''))
     shutil.rmtree(d, ignore_errors=True)
     os.makedirs(os.path.join(d, 'data'), exist_ok=True)
     os.makedirs(os.path.join(RUN, 'replays'), exist_ok=True)
@@ -277,7 +280,8 @@ def violation(res, what, payload, has_input=True):
 
 
 def finish(res, level_assumptions, rule, exhaustive=False):
-    os.makedirs(os.path.join(VERIF, 'evidence'), exist_ok=True)
+    evdir = os.path.join(RUN, 'evidence_alt') if ALT else os.path.join(VERIF, 'evidence')
+    os.makedirs(evdir, exist_ok=True)
     cov = dict(res.cov)
     cov.update(obligations=max(res.obligations, 1), discharged=res.discharged,
                checker_cmd=res.checker_cmd or 'coqc', trusted_base=res.trusted,
@@ -289,7 +293,7 @@ def finish(res, level_assumptions, rule, exhaustive=False):
     ev = dict(property_id=res.prop, tier=res.tier, seed=res.seed, level='proof', coverage=cov,
               assumptions=level_assumptions, wall_s=round(time.time() - res.t0, 2),
               violations=len(res.violations))
-    json.dump(ev, open(os.path.join(VERIF, 'evidence', res.prop + '.json'), 'w'), indent=1)
+    json.dump(ev, open(os.path.join(evdir, res.prop + '.json'), 'w'), indent=1)
     for n in res.notes:
         print('note:', n)
     print('%s tier=%s seed=%d obligations=%d discharged=%d evaluations=%d distinct_nontrivial=%d known=%d '
